@@ -230,6 +230,11 @@ func DrawEq(t *rapid.T, depth int, fixedOnly bool) *Eq {
 		if op == "empty" {
 			e.R = &Eq{Op: "const", CK: "bool", CB: rapid.Bool().Draw(t, "emb")}
 		}
+		if (op == "match" || op == "search") && rapid.IntRange(0, 2).Draw(t, "fnarg") == 0 {
+			// the second argument of a function is an equation of its own
+			parts := []string{"a", "b.", "x|y", "^k"}
+			e.R = &Eq{Op: "add", L: &Eq{Op: "const", CK: "string", CS: rapid.SampledFrom(parts).Draw(t, "fa1")}, R: &Eq{Op: "const", CK: "string", CS: rapid.SampledFrom(parts).Draw(t, "fa2")}}
+		}
 		// arithmetic feeds a comparison
 		if op == "add" || op == "sub" || op == "mul" || op == "div" {
 			return &Eq{Op: rapid.SampledFrom(fixedCmp).Draw(t, "cmpa"), L: e, R: drawOperand(t)}
